@@ -69,11 +69,21 @@ def fields(env, cfg):
     return _CTX[cfg]
 
 
+_HIST = {"prev": None}
+
+
 def select(env, cfg, prog, fid):
-    """Prepend the field selection only when the runner has another field active."""
+    """Prepend the field selection only when the runner has another field active. With a history step pending
+    (`with_history`) the other prime is selected immediately before: state left behind by it must not matter."""
     ctx = fields(env, cfg)
     r = env.runner(cfg)
     key = r.epoch()
+    prev = _HIST["prev"]
+    if prev is not None and prev != fid:
+        prog.call("fp_param_set", prev)
+        prog.call("fp_param_set", fid)
+        ctx["cur"] = (key, fid)
+        return 2
     if ctx["cur"] != (key, fid):
         prog.call("fp_param_set", fid)
         ctx["cur"] = (key, fid)
@@ -735,6 +745,60 @@ def _cfgs():
     return {"quick": ["base256"], "thorough": ["base256", "p255", "p381", "p381-qnres", "fp-quick", "fp-basic", "karat2"]}
 
 
+def with_history(strat_fn, run_fn):
+    """Every prime is installed into ONE library context: constants derived at installation (2-adicity, roots of unity,
+    Montgomery constants, sparse form, ...) must not depend on what was installed before. The cases of one runner process
+    alternate between the primes anyway, but a failure that needs such a history does not reproduce from its own case in
+    a fresh process (seed C02-5 was found and reported UNREPRODUCED). So (1) one case in ten carries an explicit prior
+    selection `prev`; (2) when a case without one fails, it is re-run in a fresh process, and if it passes there, once
+    more after each other prime: the first history that reproduces the failure is recorded in the case (which is what
+    is shrunk, confirmed 3/3 and written to the replay file)."""
+    def strat(env, cfg):
+        base = strat_fn(env, cfg)
+        fids = [f for f, _ in fields(env, cfg)["fields"]]
+
+        @st.composite
+        def s(draw):
+            case = draw(base)
+            case["prev"] = draw(st.sampled_from(fids)) if len(fids) > 1 and draw(st.integers(0, 9)) == 0 else None
+            return case
+        return s()
+
+    def run(env, cfg, case):
+        def once(prev, fresh):
+            if fresh:
+                r = env.runner(cfg)
+                r.ncases = r.recycle
+                fields(env, cfg)["cur"] = None
+            _HIST["prev"] = prev
+            try:
+                return run_fn(env, cfg, case)
+            finally:
+                _HIST["prev"] = None
+        try:
+            res = once(case.get("prev"), False)
+        except Violation as v:
+            try:
+                once(case.get("prev"), True)
+            except Violation:
+                raise v                     # a property of the case alone
+            if case.get("prev") is None:
+                for f, _ in fields(env, cfg)["fields"]:
+                    if f == case.get("fid"):
+                        continue
+                    try:
+                        once(f, True)
+                    except Violation as v2:
+                        case["prev"] = f
+                        v2.msg = v2.msg + " [only after fp_param_set(%d) in the same context]" % f
+                        raise v2
+            raise v
+        if case.get("prev") is not None and isinstance(res, tuple):
+            res = (res[0], list(res[1]) + ["history:after-other-prime"])
+        return res
+    return strat, run
+
+
 TARGETS = [
     Target("fp-bin", strat_bin, run_bin, _cfgs(), quick=24000, thorough=150000),
     Target("fp-un", strat_un, run_un, _cfgs(), quick=24000, thorough=150000),
@@ -745,6 +809,8 @@ TARGETS = [
     Target("fp-conv", strat_conv, run_conv, _cfgs(), quick=12000, thorough=80000),
     Target("fp-invsim", strat_invsim, run_invsim, _cfgs(), quick=3000, thorough=20000),
 ]
+for _t in TARGETS:
+    _t.strategy, _t.run = with_history(_t.strategy, _t.run)
 
 def _kf_inv_monty_plain(case, v, entry):
     """fp_inv_monty in a build WITHOUT Montgomery representation (FP_RDC != MONTY) returns a^-1 * R mod p whenever the
